@@ -96,7 +96,7 @@ type conductor struct {
 	closing  bool // Session.Close is held between policyConnPool.Close() and s.cancel() (shold … sfin)
 	heldDeb  *gocql.VerifDebouncer
 	closeRet chan struct{}
-	lateAdd  int   // addHost calls that created a pool inside that window (the excluded class, KF-C17-3)
+	lateAdd  int   // pools found registered after policyConnPool.Close() (must stay 0: addHost finds the pool map closed)
 	hostConns int  // open sockets of the host at the drained quiescent point of a degraded scenario
 	violated bool  // a monitor has already seen a definite violation: the remaining waits are short
 	degraded bool
@@ -509,6 +509,22 @@ func (c *conductor) act(a string) bool {
 		}
 		wasNil := c.cur == nil
 		var doneCnt int64
+		if c.closing {
+			// inside Session.Close, after policyConnPool.Close(): addHost finds the pool map closed — every caller
+			// returns, no pool is registered, no connect starts
+			c.concurrentAdd(n, kind == "upp", &doneCnt)
+			c.waitFor(fmt.Sprintf("%d addHost callers returned from the closed pool map", n), func() bool {
+				return int(atomic.LoadInt64(&doneCnt)) >= n || c.g.maxID() > c.lastID
+			})
+			if h := gocql.VerifHostPools(c.s)[c.ip.String()]; h != nil && (c.cur == nil || !c.cur.h.Same(h)) {
+				// a pool nobody will close: followed like any other pool, so that the monitors see what it holds
+				// when Session.Close has returned
+				c.cur = c.addPool(h)
+				c.lateAdd++
+			}
+			c.fillBarrier()
+			return true
+		}
 		c.concurrentAdd(n, kind == "upp", &doneCnt)
 		// how many of the callers return at once: all, except the one whose fill() dials the first connection of an
 		// empty pool synchronously
@@ -523,9 +539,6 @@ func (c *conductor) act(a string) bool {
 				return true
 			}
 			c.cur = c.addPool(h)
-			if c.closing {
-				c.lateAdd++
-			}
 		}
 		c.trigger(c.cur)
 		c.waitFor(fmt.Sprintf("%d of %d addHost callers returned", want, n), func() bool {
@@ -838,7 +851,8 @@ func runPipeLabelled(label string, cfg pipeCfg, fixed []string, choose chooser, 
 	if c.violated {
 		wdEnd = time.Second // a definite violation was already seen: what follows is only recorded
 	}
-	// a pool registered by an addHost inside Session.Close (excluded class): its connections are counted apart
+	// a pool registered by an addHost inside Session.Close: its connections are reported apart (lateopen) AND counted
+	// in afterclose — nothing may be open after Session.Close
 	lateOpen := func() int {
 		if c.lateAdd == 0 || c.cur == nil {
 			return 0
@@ -852,16 +866,19 @@ func runPipeLabelled(label string, cfg pipeCfg, fixed []string, choose chooser, 
 		return n
 	}
 	after, late := 0, 0
-	patient(wdEnd, func() bool { late = lateOpen(); after = c.openSockets() - late; return after == 0 })
+	if c.lateAdd > 0 {
+		wdEnd = time.Second // a pool registered after policyConnPool.Close(): nothing will close it, no point in waiting
+	}
+	patient(wdEnd, func() bool { late = lateOpen(); after = c.openSockets(); return after == 0 })
 	close(c.stopSampler)
 	c.samplerDone.Wait()
 	if after > 0 {
 		atomic.AddInt64(&failures, 1)
 	}
-	if c.lateAdd > 0 && c.cur != nil {
-		c.cur.h.Close() // the harness closes what Session.Close left behind, so that the leak monitor sees the rest
-	}
 	leaked, fns, raw := waitNoGocqlGoroutines(label, wdEnd)
+	if c.lateAdd > 0 && c.cur != nil {
+		c.cur.h.Close() // the harness closes what Session.Close left behind (after the monitors have looked)
+	}
 	if leaked > 0 {
 		atomic.AddInt64(&failures, 1)
 		os.WriteFile(dumpPath("leak", label), []byte(raw), 0o644)
